@@ -58,8 +58,39 @@ func NewSem(c *Ctx) *Sem {
 
 // RetCase is one return statement of a function with the facts known there.
 type RetCase struct {
-	Ret   *ssa.Return
-	State DNF
+	Ret     *ssa.Return
+	State   DNF
+	Results []ssa.Value // results with defer-spilled loads resolved to the values stored before rundefers
+}
+
+// ReturnValues resolves the "defer-spilled" form go/ssa uses in functions with defers
+// (*r = v; rundefers; t = *r; return t) back to the stored values.
+func ReturnValues(ret *ssa.Return) []ssa.Value {
+	out := make([]ssa.Value, len(ret.Results))
+	for i, rv := range ret.Results {
+		out[i] = rv
+		u, ok := rv.(*ssa.UnOp)
+		if !ok || u.Op != token.MUL {
+			continue
+		}
+		a, ok := u.X.(*ssa.Alloc)
+		if !ok {
+			continue
+		}
+		var last ssa.Value
+		for _, in := range ret.Block().Instrs {
+			if in == ssa.Instruction(u) {
+				break
+			}
+			if st, ok := in.(*ssa.Store); ok && st.Addr == ssa.Value(a) {
+				last = st.Val
+			}
+		}
+		if last != nil {
+			out[i] = last
+		}
+	}
+	return out
 }
 
 func (s *Sem) RetCases(fn *ssa.Function) []RetCase {
@@ -76,7 +107,7 @@ func (s *Sem) RetCases(fn *ssa.Function) []RetCase {
 			if st[b] == nil {
 				continue // unreachable
 			}
-			out = append(out, RetCase{r, st[b]})
+			out = append(out, RetCase{r, st[b], ReturnValues(r)})
 		}
 	}
 	s.retCases[fn] = out
@@ -124,10 +155,10 @@ func callResult(v ssa.Value) (*ssa.Call, int) {
 // compatible reports whether return case rc of the callee can be the one taken given the caller's fact f about
 // result idx of the call; if it can, it returns the callee-side fact to conjoin (or nil).
 func (s *Sem) compatible(rc RetCase, idx int, f Fact) (bool, *Fact) {
-	if idx >= len(rc.Ret.Results) {
+	if idx >= len(rc.Results) {
 		return true, nil
 	}
-	rv := s.C.F.Canon(rc.Ret.Results[idx])
+	rv := s.C.F.Canon(rc.Results[idx])
 	if f.Op == token.ILLEGAL { // boolean result
 		if c, ok := rv.(*ssa.Const); ok && c.Value != nil && c.Value.Kind() == constant.Bool {
 			return constant.BoolVal(c.Value) == f.Pol, nil
@@ -504,10 +535,10 @@ func (s *Sem) resultHasRole(c *ssa.Call, idx int, role string) bool {
 	}
 	n := 0
 	for _, rc := range s.RetCases(g) {
-		if idx >= len(rc.Ret.Results) {
+		if idx >= len(rc.Results) {
 			return false
 		}
-		rv := Unwrap(rc.Ret.Results[idx])
+		rv := Unwrap(rc.Results[idx])
 		if k, ok := rv.(*ssa.Const); ok && isZeroConst(k) {
 			continue
 		}
